@@ -9,7 +9,8 @@ LEVEL = "proof"
 EXPLANATION = ("Lean theorems about the FSA model: follow/accepts/longest-prefix agree; enumFixed lists exactly the pairs "
                "(w, follow w) with |w| = n, each once; the k-multiple automaton accepts exactly the accepted words of length "
                "divisible by k (partial correctness of the literal queue loop); relabelling maps the language letterwise; "
-               "recurrent = greatest sub-automaton without dead ends; remove_long_paths keeps only level-increasing edges. "
+               "recurrent = greatest sub-automaton without dead ends; remove_long_paths: levels = graph distances, with edge_ties exactly the "
+               "shortest-path edges, without a spanning tree of them. "
                "Correspondence: every query and derived automaton on the real FSA vs the model. Oracle: the same statements on "
                "the real code against a 20-line set-based reference language.")
 ASSUMPTIONS = ["labels are single characters when words are passed as Python strings (how follow_word iterates a word)",
@@ -48,6 +49,8 @@ def rand_aut(rng):
 
 
 def gen_automata(rng, n, exhaustive=((1, 3), (2, 2))):
+    if n >= 4000:       # thorough tier: every automaton with 2 states x 3 labels and 3 states x 2 labels as well
+        exhaustive = tuple(exhaustive) + ((2, 3), (3, 2))
     out = []
     for ns, nl in exhaustive:
         out += [{"init": i, "ops": []} for i in exhaustive_inits(ns, nl)]
